@@ -408,6 +408,94 @@ func c25(x *ctx) {
 		}
 		r.Extra["shared_name_documents"] = n
 	}
+	// sibling declarations: a top-level type alias `id = Integer`, a class Alpha that shadows it with a class-local
+	// `id = String`, and a class Beta that only uses `id`. A class's configuration must not depend on which
+	// siblings are declared before it (all orders of the three declarations, and each class alone).
+	{
+		ci := func(n string) map[string]any { return map[string]any{"class": "class_instance", "name": n, "args": []any{}} }
+		alias := map[string]any{"class": "alias", "name": "id", "args": []any{}}
+		fn := func(req, opt []any, rkw map[string]any, ret any) map[string]any {
+			return map[string]any{"required_positionals": req, "optional_positionals": opt, "rest_positionals": nil, "trailing_positionals": []any{},
+				"required_keywords": rkw, "optional_keywords": map[string]any{}, "rest_keywords": nil, "return_type": ret}
+		}
+		par := func(n string) map[string]any { return map[string]any{"type": alias, "name": n} }
+		meth := func(name string, f map[string]any) map[string]any {
+			return map[string]any{"member": "method_definition", "name": name, "kind": "instance", "visibility": "public", "comment": nil,
+				"overloads": []any{map[string]any{"method_type": map[string]any{"type_params": []any{}, "type": f, "block": nil}}}}
+		}
+		top := map[string]any{"declaration": "alias", "name": "id", "type_params": []any{}, "type": ci("::Integer")}
+		alpha := map[string]any{"declaration": "class", "name": "Alpha", "type_params": []any{}, "super_class": nil, "comment": nil, "members": []any{
+			map[string]any{"declaration": "alias", "name": "id", "type_params": []any{}, "type": ci("::String")},
+			meth("tag", fn([]any{par("key")}, []any{}, map[string]any{}, alias))}}
+		beta := map[string]any{"declaration": "class", "name": "Beta", "type_params": []any{}, "super_class": nil, "comment": nil, "members": []any{
+			meth("pick", fn([]any{par("key")}, []any{par("other")}, map[string]any{"mode": map[string]any{"type": alias, "name": nil}}, alias))}}
+		gamma := map[string]any{"declaration": "class", "name": "Gamma", "type_params": []any{}, "super_class": nil, "comment": nil, "members": []any{
+			map[string]any{"declaration": "alias", "name": "id", "type_params": []any{}, "type": ci("::Float")},
+			meth("scale", fn([]any{par("key")}, []any{}, map[string]any{}, alias))}}
+		docs := map[string][]any{
+			"alpha-beta": {top, alpha, beta}, "beta-alpha": {top, beta, alpha}, "beta-only": {top, beta}, "alpha-only": {top, alpha},
+			"alpha-gamma-beta": {top, alpha, gamma, beta}, "gamma-alpha-beta": {top, gamma, alpha, beta}, "beta-gamma-alpha": {top, beta, gamma, alpha},
+			"alpha-top-beta": {alpha, top, beta},
+		}
+		perClass := map[string]map[string]string{} // class -> document -> its configuration
+		var names []string
+		for n := range docs {
+			names = append(names, n)
+		}
+		sort.Strings(names)
+		for _, n := range names {
+			b, _ := json.MarshalIndent(docs[n], "", "  ")
+			ast := filepath.Join(work, "sib-"+n+".json")
+			os.WriteFile(ast, b, 0o644)
+			out, err := runConv(x.bins.Rbs, "", ast)
+			r.Evaluations++
+			r.Transitions++
+			r.Nontrivial++
+			rd := ReplayDoc{Cfg: "none", Files: map[string]string{"ast.json": string(b)}, Argv: []string{"(rbs2json with a stand-in ruby printing ast.json)"}, Observed: head(out, 1500)}
+			if err != nil {
+				bySig["c25:converter-failed:siblings"] = append(bySig["c25:converter-failed:siblings"], viol{n + ": " + err.Error(), rd})
+				continue
+			}
+			var many []json.RawMessage
+			if json.Unmarshal([]byte(out), &many) != nil {
+				many = []json.RawMessage{json.RawMessage(out)}
+			}
+			for _, one := range many {
+				var c struct {
+					Class string `json:"class"`
+				}
+				json.Unmarshal(one, &c)
+				if perClass[c.Class] == nil {
+					perClass[c.Class] = map[string]string{}
+				}
+				var canon any
+				json.Unmarshal(one, &canon)
+				cb, _ := json.Marshal(canon)
+				perClass[c.Class][n] = string(cb)
+			}
+		}
+		wantType := map[string]string{"Alpha": "String", "Beta": "Int", "Gamma": "Float"}
+		for cls, byDoc := range perClass {
+			var dn []string
+			for n := range byDoc {
+				dn = append(dn, n)
+			}
+			sort.Strings(dn)
+			for _, n := range dn[1:] {
+				if byDoc[n] != byDoc[dn[0]] {
+					sig := "c25:sibling-dependent:" + cls
+					b, _ := json.MarshalIndent(docs[n], "", "  ")
+					bySig[sig] = append(bySig[sig], viol{fmt.Sprintf("class %s converts differently in document %s than in %s: %s vs %s", cls, n, dn[0], head(byDoc[n], 300), head(byDoc[dn[0]], 300)),
+						ReplayDoc{Cfg: "none", Files: map[string]string{"ast.json": string(b)}, Argv: []string{"(rbs2json with a stand-in ruby printing ast.json)"}, Observed: head(byDoc[n], 1500), Expected: head(byDoc[dn[0]], 1500)}})
+				}
+			}
+			if w, ok := wantType[cls]; ok && len(dn) > 0 && !strings.Contains(byDoc[dn[0]], "\""+w+"\"") {
+				sig := "c25:alias-mapping:" + cls
+				bySig[sig] = append(bySig[sig], viol{fmt.Sprintf("class %s: alias `id` should map to %s: %s", cls, w, head(byDoc[dn[0]], 300)), ReplayDoc{Cfg: "none", Observed: head(byDoc[dn[0]], 1500)}})
+			}
+		}
+		r.Extra["sibling_documents"] = len(docs)
+	}
 	res := x.pool.RunAll(cases)
 	var recs []execRec
 	for i, rr := range res {
